@@ -23,6 +23,7 @@ QUICK_VARIANTS = ["rel", "w32"]
 THOROUGH_VARIANTS = ["rel", "w32", "fast", "dbg"]
 QUICK_CAP = 400          # quick tier: lines kept per (build, reduction function, edition) (stride subset) ...
 QUICK_CAP_OTHER = 120    # ... and per (build, other function, edition)
+QUICK_CAP_OP = {"wwNAF": 700, "priBaseMod": 260}    # functions whose classes are (window width / count) x operand pattern
 THOROUGH_CAP = {"rel": 2000, "w32": 1500, "fast": 600, "dbg": 600}
 SHARD = 60000            # lines per TLC run
 # functions whose specification is a Euclid / square-and-multiply loop over BigNat (seconds per line on long operands):
@@ -48,7 +49,7 @@ def _nof(l):
 
 def _grp(m, l):
     op = m.group(1)
-    if op in ("word1", "wordRot", "u16blk"):
+    if op in ("word1", "wordRot", "u16blk", "wordCmp"):
         fn = _FN.search(l)
         d = _D.search(l) if op == "u16blk" else None
         return (op, m.group(2), fn.group(1) if fn else "", d.group(1) if d else "")
@@ -68,7 +69,7 @@ def key_of(r):
     if r["fam"] == "gf2":
         return "gf2:%s:%s%s" % (r["op"], re.sub(r"(^|,)field=[^,]*,?", "", r.get("cls", "")), tail)
     if r["fam"] == "qr":
-        return "%s:%s:%s:%s%s" % (r["op"], r.get("ctor"), r.get("strat"), coarse(r.get("cls", "")), tail)
+        return "%s%s:%s:%s:%s%s" % (r["op"], "" if r["ed"] == "def" else "/" + r["ed"], r.get("ctor"), r.get("strat"), coarse(r.get("cls", "")), tail)
     if r["fam"] == "word":
         return "%s%s:%s:%s%s" % (r.get("famw", "u16"), r.get("fn", r["op"]), r["ed"], re.sub(r"\d+$", "", r.get("cls", "")), tail)
     # the operand length is not part of the key (the same class fails at every length); it is given in the text
@@ -144,6 +145,72 @@ def jacobi(a, n):
     return r if n == 1 else 0
 
 
+def wnaf(a, w):
+    """textbook width-w NAF (a_0 first), then the replacement of the suffix prescribed by ww.h"""
+    d = []
+    while a:
+        if a & 1:
+            t = a % (1 << w)
+            if t >= 1 << (w - 1):
+                t -= 1 << w
+            a -= t
+        else:
+            t = 0
+        d.append(t)
+        a >>= 1
+    if len(d) >= w + 1 and d[-1] == 1 and d[-1 - w] < 0 and all(x == 0 for x in d[-w:-1]):
+        d = d[:-w - 1] + [d[-1 - w] + (1 << (w - 1))] + [0] * (w - 2) + [1]
+    return d
+
+
+def naf_encode(d, w, L):
+    """code of a_{l-1} in the lowest bits; a non-zero symbol = w bits: sign * 2^(w-1) + |a_i|"""
+    v, pos = 0, 0
+    for t in reversed(d):
+        if t == 0:
+            pos += 1
+        else:
+            v |= (abs(t) | ((1 << (w - 1)) if t < 0 else 0)) << pos
+            pos += w
+    return l16(v, L)
+
+
+def naf_rows(rnd, count):
+    rows = []
+    for i in range(count):
+        w = rnd.choice([2, 3, 4, 5, 6, 8, 13, 31, 63])
+        L = rnd.choice([1, 2, 4, 8])
+        c = i % 5
+        a = (rnd.getrandbits(16 * L) if c == 0 else (1 << (16 * L)) - 1 - rnd.randrange(4) if c == 1
+             else ((1 << w) - 1 - 2 * rnd.randrange(1 << (w - 2))) << rnd.randrange(8) if c == 2
+             else int("0" + "".join(rnd.choice(["1" * rnd.randrange(1, 2 * w), "0" * rnd.randrange(1, w + 2)]) for _ in range(6)), 2) % (1 << (16 * L)) if c == 3
+             else rnd.randrange(0, 3))
+        a %= 1 << (16 * L)
+        d = wnaf(a, w)
+        good = 1
+        mut = i % 4                 # every 4th line is a correct one, the others break exactly one rule
+        if mut == 1 and len(d) > w + 1:
+            # the same value with two adjacent non-zero symbols: x, y -> x + 2, y - 1 ... keep it simple: split a zero pair
+            j = next((k for k in range(len(d) - 1) if d[k] != 0 and abs(d[k]) + 2 < (1 << (w - 1)) and d[k + 1] == 0), None)
+            if j is not None:
+                d = d[:j] + [d[j] - 2 if d[j] > 0 else d[j] + 2, 1 if d[j] > 0 else -1] + d[j + 2:]
+                if d[j] % 2 == 0:
+                    d = wnaf(a, w)
+                else:
+                    good = 0
+        elif mut == 2 and len(d) >= 1:
+            d = d + [0]             # a_{l-1} = 0
+            good = 0
+        elif mut == 3 and len(d) >= w + 1:
+            # undo the replacement (the suffix alpha, 0.., 1 left in place) when it was made
+            if d[-1] == 1 and d[-w] > 0 and all(x == 0 for x in d[-w + 1:-1]) and len(d) >= w:
+                d = d[:-w] + [d[-w] - (1 << (w - 1))] + [0] * (w - 1) + [1]
+                good = 0
+        rows.append(dict(fam="py", op="naf", ed="def", W=16, n=L, cls="w=%d" % w, alias="none", w=w, a=l16(a, L),
+                         naf=naf_encode(d, w, 2 * L + 1 + 2), l=len(d), good=good))
+    return rows
+
+
 def py_lines(rnd, count, big):
     def val(L):
         c, bits = rnd.randrange(5), 16 * L
@@ -217,14 +284,14 @@ def py_lines(rnd, count, big):
             a = pdivmod(a, b)[1]
             r.update(a=l16(a, L), b=l16(b, L), c=l16(pinv(a, b), L))
         rows.append(r)
-    return rows
+    return rows + naf_rows(rnd, count // 3)
 
 
 # ------------------------------------------------------------------ self-test lines
 def corrupt(r):
     """a copy of a good line with one recorded output changed"""
     c = json.loads(json.dumps(r))
-    for f in ("c", "out", "r", "q", "d", "ret"):
+    for f in ("c", "out", "r", "q", "d", "naf", "mods", "p", "ret"):
         if f in c:
             v = c[f]
             if isinstance(v, list) and v:
@@ -305,7 +372,7 @@ def run(ctx):
                     nskipped += 1
                     continue
                 g = _grp(m, l)
-                cap = (QUICK_CAP if g[0].startswith("zzRed") else QUICK_CAP_OTHER) if ctx.quick else THOROUGH_CAP.get(v, 1200)
+                cap = (QUICK_CAP if g[0].startswith("zzRed") else QUICK_CAP_OP.get(g[0], QUICK_CAP_OTHER)) if ctx.quick else THOROUGH_CAP.get(v, 1200)
                 stride = 1 if (cnt[g] <= cap or g[0] == "u16blk") else (cnt[g] + cap - 1) // cap
                 # the smallest operand length of every function is never reduced (the minimal failing class, hence the
                 # key of a finding, is then the same for every seed and tier); longer operands: classes whose hash is 0
